@@ -66,6 +66,40 @@ func lossOracle(written [][]byte, flags []uint32, suffix []byte, isPrefix bool) 
 	}
 }
 
+// multiKeyOracle: every answer of a get naming several keys must be a value written in full for the
+// key it answers, with that write's flags.
+func multiKeyOracle(ops []wire.Op) func(op wire.Op, res HRes) (string, string) {
+	type wv struct {
+		val   string
+		flags uint32
+	}
+	written := map[string][]wv{}
+	for _, o := range ops {
+		if o.Kind == "set" {
+			written[o.Key] = append(written[o.Key], wv{string(o.Value()), o.Flags})
+		}
+	}
+	return func(op wire.Op, res HRes) (string, string) {
+		if op.Kind != "mget" || res.Class == "error" {
+			return "", ""
+		}
+		for _, h := range res.Hits {
+			k := h.Key
+			if h.Idx >= 0 && h.Idx < len(op.Keys) {
+				k = op.Keys[h.Idx]
+			}
+			ok := false
+			for _, w := range written[k] {
+				ok = ok || (h.Val == w.val && h.Flags == w.flags)
+			}
+			if !ok {
+				return "torn-value multi-key", fmt.Sprintf("get of %v: the answer for %q has %d bytes with flags %x, which is not a value written in full for that key", op.Keys, k, len(h.Val), h.Flags)
+			}
+		}
+		return "", ""
+	}
+}
+
 func lens(w [][]byte) []int {
 	out := make([]int, len(w))
 	for i := range w {
@@ -228,6 +262,63 @@ func runC05(c *rt.Ctx) {
 				c.Nontrivial(fmt.Sprint(lc))
 				for _, f := range fs {
 					c.Violation(f.Sig+" many-chunks", f.What, sc)
+				}
+			}
+		}
+	}
+	// one get naming several keys: each value returned must be what a single set wrote in full for
+	// THAT key (a handler that reads the next key into memory an earlier answer still refers to
+	// patches two values together), with nothing lost and with every single backend entry lost
+	{
+		ka, kb := "ka", "kb"
+		pk := payloadFor(len(ka))
+		size := func(n int) int {
+			if n == 0 {
+				return 0
+			}
+			return (n-1)*pk + pk/2 + 1
+		}
+		for na := 0; na <= 3; na++ {
+			for nb := 0; nb <= 3; nb++ {
+				item++
+				if !c.Mine(item) {
+					continue
+				}
+				oa := wire.Op{Kind: "set", Key: ka, VGen: true, VLen: size(na), VSeed: 41, Flags: 0xA}
+				ob := wire.Op{Kind: "set", Key: kb, VGen: true, VLen: size(nb) + 3, VSeed: 42, Flags: 0xB}
+				losses := []string{""}
+				losses = append(losses, ka+"-meta", kb+"-meta")
+				for i := 0; i < na; i++ {
+					losses = append(losses, ka+"-"+strconv.Itoa(i))
+				}
+				for i := 0; i <= nb; i++ {
+					losses = append(losses, kb+"-"+strconv.Itoa(i))
+				}
+				for _, lost := range losses {
+					for _, keys := range [][]string{{ka, kb}, {kb, ka}, {ka, kb, ka}, {kb, kb, ka}} {
+						ops := []wire.Op{oa, ob}
+						if lost != "" {
+							ops = append(ops, wire.Op{Kind: "evict", Key: lost})
+						}
+						ops = append(ops, wire.Op{Kind: "mget", Keys: keys}, wire.Op{Kind: "mget", Keys: keys, Quiet: []bool{true, true, true}[:len(keys)], NoopEnd: true})
+						sc := ChunkScenario{Harness: "C05", Ops: ops, Lossy: true}
+						var r *ChunkResult
+						oracle := multiKeyOracle(ops)
+						InBubble(c.T, func() {
+							r = RunChunk(sc, ChunkOpts{NoModel: true, NoPhys: true, AfterEach: func(i int, op wire.Op, st *fakemcStore, m *refModel, res HRes) (string, string) {
+								return oracle(op, res)
+							}})
+						})
+						c.Eval(1)
+						c.Trace(1)
+						c.Distinct(fmt.Sprintf("multi|%d|%d|%s|%v", na, nb, lost, keys))
+						if lost != "" {
+							c.Nontrivial(fmt.Sprintf("multi|%d|%d|%s|%v", na, nb, lost, keys))
+						}
+						for _, f := range r.Findings {
+							c.Violation(f.Sig, f.What, sc)
+						}
+					}
 				}
 			}
 		}
